@@ -126,8 +126,13 @@ def run(ctx):
     gen.mix_excl = ({"Sliced"} if ("sliced_drops_imag" in present or "sliced_casts_operand" in present) else set()) | \
                    ({"KronSum"} if "kronsum_inplace_dtype" in present else set())
 
+    from props import c05 as _c05, c02 as _c02
+    _c05_present = {f["flag"] for f in _c05.findings() if f["present"]}
+
     def accept(case):
         t = case["tree"]
+        if "scalar_keeps_annotations" in _c05_present and _c02.scalar_annot_unsafe(t):
+            return False   # recorded C05 finding: a non-real multiple of Identity / Permutation keeps their annotations and misleads the left-product shortcut under wrappers
         tree_cplx = any(d in T.CPLX for d in O.leaf_dts(t))
         if "sliced_drops_imag" in present and O.sliced_unsafe(t, case["dx"]):
             return False
